@@ -28,7 +28,8 @@ LEVEL_NOTE = ("Trusted: Coq kernel + vm_compute; the identification of the model
               "an unlocked access is a violation and adds switch points so the lossy schedule is found) and "
               "statically (gen/c26.py, fail-closed); CPython threading primitives replaced by instrumented fakes on "
               "the instance under test; times are integer ticks (floats with integer values in the implementation).")
-TECHNIQUE = "Coq proof (invariants over all interleavings, Lib/Sched.v) + deterministic-scheduler correspondence"
+TECHNIQUE = ("Coq proof (invariants over all interleavings, Lib/Sched.v) + deterministic-scheduler correspondence "
+             "(+ oracle-only enumeration of the Channel-level receive path)")
 GENS = ["c26"]
 
 WATCHDOG = 5.0
@@ -76,23 +77,28 @@ def _unpin_clock(bp, saved):
 
 
 class FakeLock:
-    def __init__(self, ex):
+    def __init__(self, ex, name="_lock"):
         self.ex = ex
+        self.name = name
         self.owner = None
         self.acquires = 0
+        ex.locks.append(self)
 
     def acquire(self, blocking=True, timeout=-1):
         ex = self.ex
         if not ex.stop:
-            if ex.dirty.get(ex.cur):
+            mine = ex.sections.setdefault(ex.cur, {})
+            if ex.holds_lock(ex.cur):
+                pass        # nested acquisition inside another critical section: not a switch point
+            elif ex.dirty.get(ex.cur):
                 # this operation already touched shared state without the lock: whatever it read may
                 # be stale by the time it gets the lock, so other threads may run here
                 ex.pause(ex.cur, "lock acquire after an unlocked access")
-            elif ex.sections.get(ex.cur, 0) >= 1:
-                # the operation consists of more than one critical section: other threads may run
-                # between two sections
+            elif mine.get(id(self), 0) >= 1:
+                # the operation takes this lock more than once: other threads may run between the
+                # two critical sections
                 ex.pause(ex.cur, "between two critical sections of one operation")
-            ex.sections[ex.cur] = ex.sections.get(ex.cur, 0) + 1
+            mine[id(self)] = mine.get(id(self), 0) + 1
         if self.owner is not None:
             self.ex.problems.append("lock acquired while held")
             raise RuntimeError("lock acquired while held (would deadlock)")
@@ -169,26 +175,30 @@ WATCHED = ("_buffer", "_closed", "_event")
 _WATCHED_CLASSES = {}
 
 
-def watch(pipe, ex):
-    """Route every read / write of the pipe's shared attributes through ex.access(name), by giving
-    the instance a subclass with attribute hooks (the class under test itself is not modified)."""
-    base = type(pipe)
-    cls = _WATCHED_CLASSES.get(base)
+def watch(obj, ex, names, lock):
+    """Route every read / write of the shared attributes `names` of `obj` through ex.access(name, lock)
+    (lock = the instrumented lock that has to be held), by giving the instance a subclass with attribute
+    hooks (the class under test itself is not modified)."""
+    base = type(obj)
+    cls = _WATCHED_CLASSES.get((base, names))
     if cls is None:
         class Watched(base):
             def __getattribute__(self, name):
-                if name in WATCHED:
-                    object.__getattribute__(self, "_c26_ex").access(name)
+                if name in names:
+                    oga = object.__getattribute__
+                    oga(self, "_c26_ex").access(name, oga(self, "_c26_lock"))
                 return base.__getattribute__(self, name)
 
             def __setattr__(self, name, value):
-                if name in WATCHED:
-                    object.__getattribute__(self, "_c26_ex").access(name)
+                if name in names:
+                    oga = object.__getattribute__
+                    oga(self, "_c26_ex").access(name, oga(self, "_c26_lock"))
                 base.__setattr__(self, name, value)
 
-        cls = _WATCHED_CLASSES[base] = Watched
-    object.__setattr__(pipe, "_c26_ex", ex)
-    pipe.__class__ = cls
+        cls = _WATCHED_CLASSES[(base, names)] = Watched
+    object.__setattr__(obj, "_c26_ex", ex)
+    object.__setattr__(obj, "_c26_lock", lock)
+    obj.__class__ = cls
 
 
 class Pool:
@@ -261,37 +271,54 @@ class Exec:
         self._seq = 0
         self.event = None
         _CLOCK[0] = 1000.0
-        self.pipe = bp.BufferedPipe()
-        self.lock = FakeLock(self)
-        self.pipe._lock = self.lock
-        self.pipe._cv = FakeCV(self, self.lock)
+        self.locks = []         # every instrumented lock of this execution
         self.paused = {}        # tid -> why (thread parked at an extra switch point)
         self.dirty = {}         # tid -> the running operation has touched shared state unlocked
-        self.sections = {}      # tid -> lock acquisitions made by the running operation
+        self.sections = {}      # tid -> {lock: acquisitions made by the running operation}
         self.unlocked = []      # (attribute, action) of unlocked accesses not yet reported
         self.unmodelled = False
-        watch(self.pipe, self)
-        self.orc = Oracle(ctx, programs)
+        self.setup()
+        self.orc = self.make_oracle(ctx, programs)
         self.sched, self.actions, self.trace, self.siblings = [], [], [], []
         self.pending = None
         self.pending_op = None
         self.error = None
         self.why = None
 
+    RIG = "pipe"
+
+    def setup(self):
+        self.pipe = self.bp.BufferedPipe()
+        self.lock = FakeLock(self)
+        self.pipe._lock = self.lock
+        self.pipe._cv = FakeCV(self, self.lock)
+        watch(self.pipe, self, WATCHED, self.lock)
+
+    def make_oracle(self, ctx, programs):
+        return Oracle(ctx, programs)
+
+    def action_of(self, op):
+        return op_action(op)
+
     def tick(self):
         self._seq += 1
         return self._seq
 
-    def access(self, name):
-        """Called (from the running worker) before every read / write of a shared attribute."""
+    def holds_lock(self, i):
+        return any(lk.owner == i for lk in self.locks)
+
+    def access(self, name, lock):
+        """Called (from the running worker) before every read / write of a shared attribute that is
+        to be touched only with `lock` held."""
         if self.stop:
             return
         i = self.cur
-        if self.lock.owner == i:
+        if lock.owner == i:
             return
         self.dirty[i] = True
         self.unlocked.append((name, self.pending[1]))
-        self.pause(i, "before an unlocked access to %s" % name)
+        if not self.holds_lock(i):
+            self.pause(i, "before an unlocked access to %s" % name)
 
     def pause(self, i, why):
         """Extra switch point inside an operation (only reached by code that breaks the lock
@@ -314,6 +341,8 @@ class Exec:
             return ("done",)
         if k == "read":
             t = op[2]
+            if len(op) > 3 and op[3] == "int":
+                return ("ret", self.pipe.read(op[1], int(t)))       # timeout passed as an int (0, not 0.0)
             return ("ret", self.pipe.read(op[1], None if t is None else float(t)))
         if k == "empty":
             return ("emptied", self.pipe.empty())
@@ -384,10 +413,10 @@ class Exec:
             op = self.programs[tid][self.started[tid]]
             self.started[tid] += 1
             self.dirty[tid] = False
-            self.sections[tid] = 0
-            action = op_action(op)
+            self.sections[tid] = {}
+            action = self.action_of(op)
         self.cur = tid
-        self.pending = (c, action, op, self.lock.acquires)
+        self.pending = (c, action, op, sum(lk.acquires for lk in self.locks))
         self.pending_op = op
         return tid
 
@@ -397,9 +426,9 @@ class Exec:
         try:
             c, action, op, before = self.pending
             if res[0] not in ("blocked", "exc", "paused"):
-                if self.lock.owner is not None:
+                if any(lk.owner is not None for lk in self.locks):
                     self.problems.append("lock still held after %r" % (action,))
-                if op is not None and self.lock.acquires == before:
+                if op is not None and sum(lk.acquires for lk in self.locks) == before:
                     self.problems.append("no lock acquired during %r" % (action,))
             self.sched.append(c)
             self.actions.append((i, action))
@@ -444,12 +473,200 @@ class Exec:
         self.stop = True
         for j in sorted(set(blocked) | set(self.paused)):
             self.cur = j
-            self.lock.owner = None
+            for lk in self.locks:
+                lk.owner = None
             p.go[j].release()
             if not p.main.acquire(timeout=WATCHDOG):
                 p.dead = True
                 raise Hang("blocked thread %d did not unwind" % j)
         return blocked
+
+
+class ChanExec(Exec):
+    """The Channel-level receive path on a real paramiko.channel.Channel (stub transport): incoming
+    CHANNEL_DATA (_feed), CHANNEL_EXTENDED_DATA (_feed_extended), set_combine_stderr, and non-blocking
+    recv / recv_stderr.  The channel lock and both pipes' locks are instrumented; `combine_stderr` may be
+    touched only with the channel lock held (an unlocked access is a finding and a switch point)."""
+    RIG = "channel"
+
+    def setup(self):
+        from paramiko.channel import Channel
+
+        class T:
+            active = True
+
+            def __init__(self):
+                self.sent = []
+
+            def get_log_channel(self):
+                return "paramiko.c26"
+
+            def _send_user_message(self, m):
+                self.sent.append(m)
+
+            def _sanitize_packet_size(self, n):
+                return n
+
+        ch = Channel(1)
+        ch._set_transport(T())
+        ch._set_window(1 << 30, 1 << 15)
+        ch._set_remote_channel(7, 1 << 30, 1 << 15)
+        ch.timeout = 0.0
+        self.chlock = FakeLock(self, "channel.lock")
+        ch.lock = self.chlock
+        ch.out_buffer_cv = FakeCV(self, self.chlock)
+        for pipe, name in ((ch.in_buffer, "in_buffer._lock"), (ch.in_stderr_buffer, "in_stderr_buffer._lock")):
+            lk = FakeLock(self, name)
+            pipe._lock = lk
+            pipe._cv = FakeCV(self, lk)
+            watch(pipe, self, WATCHED, lk)
+        watch(ch, self, ("combine_stderr",), self.chlock)
+        self.ch = ch
+        self.pipe = ch.in_buffer
+        self.lock = self.chlock
+
+    def make_oracle(self, ctx, programs):
+        return ChanOracle(ctx, programs)
+
+    def action_of(self, op):
+        k = op[0]
+        if k in ("out", "err"):
+            return ("Out" if k == "out" else "Err", list(op[1]))
+        if k == "combine":
+            return ("Combine", bool(op[1]))
+        return ("Recv" if k == "recv" else "RecvErr", op[1])
+
+    def perform(self, op):
+        import socket
+        from paramiko.message import Message
+        k = op[0]
+        ch = self.ch
+        if k == "out":
+            m = Message()
+            m.add_string(op[1])
+            m.rewind()
+            ch._feed(m)
+            return ("done",)
+        if k == "err":
+            m = Message()
+            m.add_int(1)
+            m.add_string(op[1])
+            m.rewind()
+            ch._feed_extended(m)
+            return ("done",)
+        if k == "combine":
+            return ("done", bool(ch.set_combine_stderr(op[1])))
+        try:
+            return ("ret", ch.recv(op[1]) if k == "recv" else ch.recv_stderr(op[1]))
+        except socket.timeout:
+            return ("timeout",)
+
+    def buffers(self):
+        ch = self.ch
+        return vars(ch.in_buffer)["_buffer"].tobytes(), vars(ch.in_stderr_buffer)["_buffer"].tobytes()
+
+    def final(self):
+        out, err = self.buffers()
+        return {"buffer": out, "stderr_buffer": err, "closed": False, "has_event": False, "event_set": False}
+
+
+def is_subseq(a, b):
+    it = iter(b)
+    return all(x in it for x in a)
+
+
+class ChanOracle:
+    """FIFO over the union of the two receive buffers.  stdout payload bytes are lower-case, stderr payload
+    bytes upper-case, every byte value fed at most once, so streams can be projected:
+      * the stdout bytes of (recv results ++ in_buffer) are exactly the stdout bytes fed, in order;
+      * every stderr byte fed is in exactly one of (recv results ++ in_buffer) and (recv_stderr results ++
+        in_stderr_buffer), and in each of the two it keeps its arrival order;
+      * while combining is on (set_combine_stderr(True) has returned and nothing is in progress) no data is
+        left in the stderr buffer, and recv_stderr delivers nothing."""
+    RIG = "channel"
+
+    def __init__(self, ctx, programs):
+        self.ctx = ctx
+        self.programs = programs
+        self.out_fed = b""
+        self.err_fed = b""
+        self.out_got = b""
+        self.err_got = b""
+        self.combine = False
+        self.inflight = {}
+        self.steps = []
+        self.failed = False
+        self.desync = False
+
+    def fail(self, key, what, expected=None, observed=None):
+        if self.desync and key not in ("unlocked-state-access", "lock-discipline", "hang"):
+            return
+        self.failed = True
+        self.ctx.fail(key, what, case={"rig": "channel", "programs": self.programs, "schedule": list(self.steps)},
+                      expected=expected, observed=observed)
+
+    def step(self, tid, dt, action, res, ex):
+        self.steps.append([tid, dt])
+        k = res[0]
+        if action[0] not in ("Resume",):
+            self.inflight[tid] = action
+        if k == "exc":
+            self.fail("unexpected-exception", "%s raised %s" % (action[0], res[1]), observed=res[1])
+        if k not in ("paused", "blocked"):
+            act0 = self.inflight.pop(tid, action)
+            if act0[0] == "Out":
+                self.out_fed += bytes(act0[1])
+            elif act0[0] == "Err":
+                self.err_fed += bytes(act0[1])
+            elif act0[0] == "Combine" and k == "done":
+                self.combine = act0[1]
+            elif act0[0] == "Recv" and k == "ret":
+                self.out_got += res[1]
+            elif act0[0] == "RecvErr" and k == "ret":
+                if self.combine and res[1]:
+                    self.fail("combine-recv-stderr", "recv_stderr delivered data although stderr is combined into "
+                              "stdout", expected=b"", observed=res[1])
+                self.err_got += res[1]
+        for name, act in ex.unlocked:
+            self.fail("unlocked-state-access",
+                      "%s touches self.%s without holding the lock that protects it (the flag test and the store "
+                      "are not one step with respect to set_combine_stderr)" % (act[0], name))
+        del ex.unlocked[:]
+        for p in ex.problems:
+            self.fail("lock-discipline", p)
+        del ex.problems[:]
+        if ex.paused or self.inflight:
+            return
+        self.check(ex)
+
+    def check(self, ex):
+        out_buf, err_buf = ex.buffers()
+        s_stream = self.out_got + out_buf
+        e_stream = self.err_got + err_buf
+        lower = bytes(c for c in s_stream if 97 <= c <= 122)
+        upper_s = bytes(c for c in s_stream if 65 <= c <= 90)
+        if lower != self.out_fed:
+            self.fail("channel-fifo", "stdout data delivered ++ buffered differs from the stdout data fed",
+                      expected=self.out_fed, observed=lower)
+            self.desync = True
+        if sorted(upper_s + e_stream) != sorted(self.err_fed):
+            self.fail("channel-fifo", "stderr data is lost or duplicated across the two receive buffers",
+                      expected=self.err_fed, observed={"in_stdout_stream": upper_s, "in_stderr_stream": e_stream})
+            self.desync = True
+        elif not (is_subseq(upper_s, self.err_fed) and is_subseq(e_stream, self.err_fed)):
+            self.fail("channel-fifo", "stderr data is delivered out of arrival order (later data overtook "
+                      "earlier data)", expected=self.err_fed,
+                      observed={"in_stdout_stream": upper_s, "in_stderr_stream": e_stream})
+            self.desync = True
+        if self.combine and err_buf:
+            self.fail("combine-stderr-left-behind",
+                      "stderr combining is on but %d byte(s) sit in the stderr buffer: they are never delivered by "
+                      "recv() and later stderr data overtakes them" % len(err_buf), expected=b"", observed=err_buf)
+
+    def finish(self, ex):
+        if not self.inflight:
+            self.check(ex)
+        return ex.final()
 
 
 def op_action(op):
@@ -480,6 +697,7 @@ def enc_result(res):
 
 class Oracle:
     """The property stated directly over what the threads observe, step by step."""
+    RIG = "pipe"
 
     def __init__(self, ctx, programs):
         self.ctx = ctx
@@ -490,6 +708,7 @@ class Oracle:
         self.cur_read = {}      # tid -> (n, timeout) of the read in progress
         self.inflight = {}      # tid -> action of a non-read operation that has started
         self.desync = False     # data already lost / duplicated: byte accounting no longer meaningful
+        self.results = []       # observed result of every step, in order
         self.steps = []
         self.failed = False
 
@@ -497,11 +716,12 @@ class Oracle:
         if self.desync and key not in ("fifo", "unlocked-state-access", "lock-discipline", "hang"):
             return      # consequence of the loss / duplication already reported for this execution
         self.failed = True
-        self.ctx.fail(key, what, case={"programs": self.programs, "schedule": list(self.steps)},
+        self.ctx.fail(key, what, case={"rig": self.RIG, "programs": self.programs, "schedule": list(self.steps)},
                       expected=expected, observed=observed)
 
     def step(self, tid, dt, action, res, ex):
         self.steps.append([tid, dt])
+        self.results.append(tuple(res))
         avail = len(self.fed) - len(self.got)
         k = res[0]
         if action[0] == "ARead":
@@ -534,6 +754,11 @@ class Oracle:
             n, t = self.cur_read.pop(tid)
             if t is None:
                 self.fail("timeout-without-timeout", "PipeTimeout from a read without timeout")
+            if action[0] == "ARead" and self.closed and avail == 0:
+                self.fail("timeout-on-closed-drained",
+                          "read(timeout=%r) on a pipe that is closed and drained raised PipeTimeout instead of "
+                          "returning the empty string (end-of-file is never reported to this reader)" % (t,),
+                          expected=b"", observed="PipeTimeout")
             if avail > 0:
                 self.fail("timeout-with-data",
                           "PipeTimeout raised although %d byte(s) fed earlier were still undelivered (data was "
@@ -541,6 +766,9 @@ class Oracle:
                           expected=self.fed[len(self.got):][:max(n, 0)], observed="PipeTimeout")
         elif k == "blocked":
             n, t = self.cur_read[tid]
+            if action[0] == "ARead" and self.closed and avail == 0:
+                self.fail("blocked-on-closed-drained", "read on a closed, drained pipe blocked instead of returning "
+                          "the empty string", expected=b"")
             if avail > 0 or self.closed:
                 self.fail("blocked-although-ready", "read went (back) to waiting although data was buffered "
                           "or the pipe was closed")
@@ -585,10 +813,10 @@ class Oracle:
         return fin
 
 
-def run_schedule(ctx, programs, prefix, extend=None, wide=False):
+def run_schedule(ctx, programs, prefix, extend=None, wide=False, cls=None):
     """Execute `prefix` (list of (tid, dt)); then keep extending with extend(choices) until no step
     is enabled.  Returns dict(ok, actions, trace, schedule, siblings, ...)."""
-    ex = Exec(ctx, programs, prefix, extend, wide)
+    ex = (cls or Exec)(ctx, programs, prefix, extend, wide)
     try:
         blocked = ex.run()
     except Hang as e:
@@ -606,14 +834,14 @@ def run_schedule(ctx, programs, prefix, extend=None, wide=False):
             "schedule": ex.sched, "siblings": ex.siblings, "final": fin, "blocked": blocked}
 
 
-def explore(ctx, programs, cap):
+def explore(ctx, programs, cap, cls=None):
     """All maximal schedules of `programs` by depth-first search with re-execution (one execution per
     maximal schedule).  Yields result dicts; stops after `cap` leaves (returns exhaustive flag)."""
     stack = [[]]
     leaves = []
     while stack and len(leaves) < cap:
         prefix = stack.pop()
-        r = run_schedule(ctx, programs, prefix, extend=lambda ch: 0)
+        r = run_schedule(ctx, programs, prefix, extend=lambda ch: 0, cls=cls)
         leaves.append(r)
         if not r["ok"]:
             continue
@@ -759,6 +987,84 @@ def compare_digests(ctx, work):
     return bad
 
 
+def read_grid(ctx, work):
+    """Every read variant (blocking, timeout int 0, float 0.0, positive) x every pipe state (empty-open,
+    empty-closed, drained-closed, data-open, data-closed), each read issued more than once on the same
+    object; the expected results are stated here directly, independently of the model."""
+    variants = [(None,), (0, "int"), (0,), (2,)]
+    for v in variants:
+        def rd(n, v=v):
+            return ("read", n) + v
+        t = v[0]
+        nodata = [("blocked",)] if t is None else ([("timeout",)] if t == 0 else [("blocked",), ("timeout",)])
+        grid = [
+            ("empty-open", [rd(3)], nodata),
+            ("empty-closed", [("close",), rd(3), rd(1)], [("done",), ("ret", b""), ("ret", b"")]),
+            ("drained-closed", [("feed", b"ab"), rd(5), ("close",), rd(3), rd(3)],
+             [("done",), ("ret", b"ab"), ("done",), ("ret", b""), ("ret", b"")]),
+            ("data-open", [("feed", b"abc"), rd(2), rd(2)], [("done",), ("ret", b"ab"), ("ret", b"c")]),
+            ("data-closed", [("feed", b"abc"), ("close",), rd(2), rd(2), rd(2)],
+             [("done",), ("done",), ("ret", b"ab"), ("ret", b"c"), ("ret", b"")]),
+        ]
+        for state, prog, expected in grid:
+            programs = [prog]
+            r = run_schedule(ctx, programs, [], extend=lambda ch: 0)
+            ctx.count(("grid", state, v), kind="read-grid")
+            got = [x for x in r["oracle"].results if x[0] != "paused"]
+            if got != expected:
+                ctx.fail("read-grid-%s" % state,
+                         "read with timeout %r%s on a pipe that is %s: results differ from the close / timeout rules"
+                         % (t, " (int)" if len(v) > 1 else "", state),
+                         case={"rig": "pipe", "programs": programs, "schedule": [list(c) for c in r["schedule"]]},
+                         expected=expected, observed=got)
+            if r["ok"] and r["modelled"]:
+                work.explicit.append((programs, r))
+
+
+CHANNEL_SETS = [
+    # stderr chunks racing with the switch to combined mode, while stdout data is received
+    [[("err", b"A"), ("err", b"B"), ("err", b"C")], [("combine", True)], [("out", b"a"), ("recv", 10)]],
+    # switching on, off and on again; both recv variants
+    [[("err", b"A"), ("out", b"a"), ("err", b"B")], [("combine", True), ("combine", False), ("combine", True)],
+     [("recv_err", 1), ("recv", 10)]],
+    # two feeders
+    [[("out", b"a"), ("err", b"A")], [("err", b"B"), ("combine", True)], [("recv", 1), ("recv_err", 10)]],
+]
+
+
+def gen_channel_programs(rng):
+    lower = iter(b"abcdefghijklmnopqrstuvwxyz")
+    upper = iter(b"ABCDEFGHIJKLMNOPQRSTUVWXYZ")
+
+    def op():
+        r = rng.random()
+        if r < 0.25:
+            return ("out", bytes(next(lower) for _ in range(rng.randrange(1, 3))))
+        if r < 0.6:
+            return ("err", bytes(next(upper) for _ in range(rng.randrange(1, 3))))
+        if r < 0.8:
+            return ("combine", rng.random() < 0.7)
+        return (rng.choice(["recv", "recv_err"]), rng.choice([1, 2, 10]))
+    while True:
+        ps = [[op() for _ in range(rng.randrange(1, 4))] for _ in range(rng.choice([2, 3]))]
+        kinds = {o[0] for p in ps for o in p}
+        if "err" in kinds and "combine" in kinds:
+            return ps
+
+
+def channel_receive_path(ctx, rng):
+    """All interleavings of _feed / _feed_extended / set_combine_stderr / recv / recv_stderr programs on a real
+    Channel (oracle only: the Coq model of C26 is the pipe; C21 models the combine logic)."""
+    sets = CHANNEL_SETS + [gen_channel_programs(rng) for _ in range(12 if ctx.thorough else 4)]
+    total = 0
+    for k, programs in enumerate(sets):
+        leaves, _ = explore(ctx, programs, 6000 if ctx.thorough else 1800, cls=ChanExec)
+        total += len(leaves)
+        for r in leaves:
+            ctx.count(("chan", programs, r["schedule"]), nontrivial=len(r["actions"]) > 2, kind="channel-recv-path")
+    ctx.notes.append("channel receive path: %d program sets, %d schedules executed on a real Channel" % (len(sets), total))
+
+
 def run(ctx):
     import paramiko.buffered_pipe as bp
     rng = ctx.rng
@@ -769,8 +1075,11 @@ def run(ctx):
                 "the deadline, timed-out waits at the deadline) and compared with the model's own enumeration of the "
                 "same set (count + sum of 48-bit trace hashes); a sample and every set that exceeds its cap are also "
                 "compared schedule by schedule; plus random walks over longer 1-3 thread histories with early/late "
-                "clock readings.  A case = one (programs, schedule); non-trivial when it contains a read and more "
-                "than one step.")
+                "clock readings; a grid of every read variant (blocking, timeout int 0 / float 0.0 / positive) x every "
+                "pipe state (empty-open, empty-closed, drained-closed, data-open, data-closed) with directly stated "
+                "expected results; and all interleavings of _feed / _feed_extended / set_combine_stderr / recv / "
+                "recv_stderr programs on a real Channel (oracle: FIFO over the union of both receive buffers).  "
+                "A case = one (programs, schedule); non-trivial when it contains a read and more than one step.")
     ctx.trusted += ["model coq/Model/C26.v is hand-written; tied to paramiko/buffered_pipe.py by the scheduler-driven "
                     "differential run (vm_compute of the model's own step function) and gen/c26.py (shape of feed())",
                     "atomicity of critical sections: checked per operation by the instrumented lock and by access "
@@ -815,6 +1124,8 @@ def _run(ctx, rng):
             ctx.count((programs, r["schedule"]), nontrivial=len(r["actions"]) > 3, kind="long-%dthr" % nthreads)
             if r["ok"] and r["modelled"] and j == 0:
                 work.explicit.append((programs, r))
+    read_grid(ctx, work)
+    channel_receive_path(ctx, rng)
     # deterministic regression: a feed landing exactly at the deadline must be delivered
     programs = [[("feed", b"abc")], [("read", 10, 5)]]
     r = run_schedule(ctx, programs, [(1, None), (0, None), (1, 5)])
@@ -850,12 +1161,13 @@ def replay(ctx, rep):
     case = rep["case"]
     programs = [[tuple(op) for op in p] for p in _unjson(case["programs"])]
     sched = [tuple(c) for c in _unjson(case["schedule"])]
+    cls = ChanExec if case.get("rig") == "channel" else Exec
     saved = _pin_clock(bp)
     try:
-        r = run_schedule(ctx, programs, sched)
+        r = run_schedule(ctx, programs, sched, cls=cls)
         ctx.count((programs, sched), kind="replay")
         ctx.log("replay: %s; steps %r" % ("completed" if r["ok"] else r.get("why"), r["actions"]))
-        if r["ok"] and r["modelled"]:
+        if r["ok"] and r["modelled"] and cls is Exec:
             compare_explicit(ctx, [(programs, r)])
         ctx.count(("replay2", programs, sched), kind="replay")
     finally:
